@@ -8,7 +8,7 @@ from vyxal.context import Context
 from vyxal.elements import add, subtract, multiply, divide, modulo, integer_divide
 
 RULE = ("operands in every representation that reaches the operators (Python int, sympy.Integer, sympy.Rational): every pair p/q with |p| <= 6, "
-        "q <= 4 (quick) / |p| <= 12, q <= 6 (thorough) exhaustively for all six operators, random pairs with |p| <= 10^6, q <= 10^4, and random "
+        "q <= 4 (quick) / |p| <= 12, q <= 6 (thorough) exhaustively for all six operators, random pairs with |p| <= 10^6, q <= 10^4 (30% of them around 2^53, 2^63, 2^64, 10^17 .. 10^40, where floats and machine words stop being exact), and random "
         "expression trees of depth <= 5 over + - * / run as Vyxal programs. Oracle: the result has type int / Integer / Rational (never float "
         "or a symbolic expression) and equals the fractions.Fraction result exactly; / and ḭ by zero give 0. Correspondence: value and "
         "representation class vs the Lean number model. Non-trivial = distinct (operator, operands, representations).")
@@ -115,6 +115,10 @@ def run(ctx, widen=False):
         def rv():
             p = rng.randint(-10 ** 6, 10 ** 6)
             q = rng.randint(1, 10 ** 4) if rng.random() < 0.5 else 1
+            r = rng.random()
+            if r < 0.3:       # magnitudes where a float (53-bit mantissa) or a machine word stops being exact
+                p = rng.choice([1, -1]) * (rng.choice([2 ** 53, 2 ** 63, 2 ** 64, 10 ** 17, 10 ** 18, 10 ** 25, 3 * 10 ** 17, 10 ** 40]) + rng.randint(-3, 9))
+                q = rng.choice([1, 1, 1, 2, 3, 7, 10 ** 9 + 7])
             f = Fraction(p, q)
             return rng.choice(reps(f.numerator, f.denominator))
         cases.append({"op": rng.choice(list(OPS)), "a": rv(), "b": rv()})
